@@ -154,6 +154,26 @@ Fixpoint gc_scan (d : lsm) (now fid : N) (idx : N) (rs : vfile) : list (N * entr
       else gc_scan d now fid (idx + 1) rest
   end.
 
+(* why a record is (not) kept — branch tags of the correspondence only *)
+Definition gc_reason (d : lsm) (now fid idx : N) (r : entry) : N :=
+  if deleted_or_expired r now then 1
+  else match db_get d (e_key r) (e_ver r) with
+       | None => 2
+       | Some vs =>
+           if negb (e_ver vs =? e_ver r) then 3
+           else if negb (is_ptr vs) then 4
+           else match e_val vs with
+                | [f; i] => if fid <? f then 5 else if idx <? i then 6
+                            else if (f =? fid) && (i =? idx) then 0 else 7
+                | _ => 8
+                end
+       end.
+Fixpoint gc_reasons (d : lsm) (now fid : N) (idx : N) (rs : vfile) : list N :=
+  match rs with
+  | [] => []
+  | r :: rest => (280 + gc_reason d now fid idx r) :: gc_reasons d now fid (idx + 1) rest
+  end.
+
 Definition remove_fids (fs : list N) (v : vstate) : vstate :=
   mkV (v_files v) (fs ++ v_gone v) (v_max v) (v_count v) (v_thr v) (v_maxent v).
 
@@ -399,8 +419,9 @@ Definition xstep (s : xsys) (o : xop) : xresult :=
             let wb := gc_scan (s_db y) (s_now y) (g_fid g) 0 rs in
             if keys_eqb (map (fun p => (e_key (snd p), e_ver (snd p))) wb) kept
             then XOk (set_gc s (Some (mkGc (g_fid g) (g_clamp g) true wb)))
-                     [(match wb with [] => 211 | _ => 210 end);
-                      (if (length wb <? length rs)%nat then 212 else 0)]
+                     ((match wb with [] => 211 | _ => 210 end)
+                      :: (if (length wb <? length rs)%nat then 212 else 0)
+                      :: gc_reasons (s_db y) (s_now y) (g_fid g) 0 rs)
             else XBad 1
       | None => XBad 4
       end
